@@ -74,6 +74,9 @@ func TestMain(m *testing.M) {
 	glue.SilenceKlog()
 	pool, _ = glue.NewPoolArgs()
 	if rp := ev.LoadReplay(); rp != nil {
+		if rp.Phase == "caller_slice_reuse" {
+			ev.RunReplay(rp, runReuse)
+		}
 		ev.RunReplay(rp, func(c Case) *ev.Failure { return runCase(c, nil) })
 	}
 	rec = ev.New("C16", "operation sequences on one entities.Set: PrepareSet(template|data, id), AddRecord / AddRecordWithExtraElements(k) / AddRecordV2 with element lists of 0..12 registry and user-registered elements (all 18 types, boundary-biased values), UpdateLenInHeader, ResetSet, in well-formed order; after every operation the set is compared with the reference encoding, with a fresh set replaying the operations since the last reset, and the whole history is replayed with each of the three add paths substituted; non-trivial = a ResetSet followed by a different set type or id, and >= 2 records; distinct by hash of the case",
